@@ -14,7 +14,10 @@
 (*   exc  "" or the name of the exception the call ended with               *)
 (*   ret  the 13 reported values, order FSeq (<<>> when raised)             *)
 (*   laws <<"scale", c, row, exc>> | <<"perm", perm, row, exc>> |           *)
-(*        <<"batch", 0, row, exc>>                                          *)
+(*        <<"batch", form, row, exc>>   form = 0: the waveform in another   *)
+(*        batch; > 0: the waveform handed over in another form (element     *)
+(*        type, memory layout, 2-D, option, second call ...: FORMS in        *)
+(*        harness/c14.py; only named in reports, BatchP judges them all)     *)
 (* The observed state is installed step by step.  prop = first property-    *)
 (* layer clause of Features.tla that is false on observed values            *)
 (* (VIOLATION), impl = first step that is not the implementation-layer step *)
